@@ -402,7 +402,7 @@ static void MACRO_OutProcessor(void) {
         as_dynstr_t s;
 
         as_dynstr_ini_clone(&s, &OneLine);
-        KillCtrl(s.p_str);
+        KillCtrl(&s);
 
         /* compress into tokens */
 
@@ -1191,7 +1191,7 @@ static void IRP_OutProcessor(void) {
         as_dynstr_t s;
 
         as_dynstr_ini_clone(&s, &OneLine);
-        KillCtrl(s.p_str);
+        KillCtrl(&s);
         StringRecPtr l = FirstOutputTag->ParamNames;
         int          ParIter
                 = FirstOutputTag->Tag->ParIter == 0 ? 1 : FirstOutputTag->Tag->ParIter;
